@@ -247,7 +247,7 @@ package syntax
 //@   pure
 //@ method (*StmtBase).GetCurrentLine
 //@   pure
-//@   ensures result == s.currentLine
+//@   ensures result == b.currentLine
 //@ method (*ExprBase).GetCurrentLine
 //@   pure
 //@   ensures result == e.currentLine
